@@ -101,6 +101,9 @@ def main():
     t0 = time.time()
     mod = importlib.import_module('props.' + pid.lower())
 
+    # property-specific oracles apply to replays as well
+    core.PAIR_CHECK = getattr(mod, 'pair_check', None)
+    core.MUST_REJECT = getattr(mod, 'must_reject', None)
     if args.replay:
         rp = json.load(open(args.replay))
         lines = rp['ops']
